@@ -3,12 +3,14 @@
    Model: Model/Linked.v (metadata getter/setter, edit_em_metadata, partner getters/setters, waveform setter, re-open,
    copy + copy_complement), proofs: Proofs/LinkedProofs.v.
 
-   SCOPE.  Every theorem below is about electromagnetic pairs (receivers/transmitters, tipper receivers/base stations):
-   [inv] requires [is_dc (fam _) = false], so DIRECT-CURRENT (potential/current electrode) pairs are excluded from all of them;
-   the copy theorems (C20_copy_links_copies, C20_copy_of_copy) additionally exclude the LARGE-LOOP families
-   ([is_large (fam ea) = false]).  Electrode pairs and large-loop copies are covered by the correspondence (the model
-   functions dc_link / dc_edit / dc_copy and the large-loop branch of em_copy are evaluated on every generated history and
-   compared with the implementation) and by the oracle, not by theorems.
+   SCOPE.  The theorems named C20_* without "dc" are about electromagnetic pairs (receivers/transmitters, tipper
+   receivers/base stations): [inv] requires [is_dc (fam _) = false].  DIRECT-CURRENT (potential/current electrode) pairs have
+   their own, weaker invariant [dinv] (C20_dc_* below): for electrodes the code does NOT keep the two metadata dictionaries
+   equal (finding dc-shared-dict-partner-not-stored), so what is proved is that the LINK persists — whatever either electrode
+   reads and whatever is stored for either names both.  The copy theorems (C20_copy_links_copies, C20_copy_of_copy) exclude the
+   LARGE-LOOP families ([is_large (fam ea) = false]) and electrodes; large-loop copies and electrode copies (dc_copy, the
+   large-loop branch of em_copy) are covered by the correspondence — evaluated on every generated history and compared with the
+   implementation — and by the oracle, not by theorems.
 
    [inv s w u1 u2] : the entities u1, u2 of workspace w exist with opposite roles, the stored metadata of both is the same
    dictionary fd, fd names u1 under u1's link key and u2 under u2's, and whichever of the two holds a cached dict reads
@@ -105,6 +107,39 @@ Theorem C20_copy_then_edit_isolated : forall s w ua ub ea tw mask s' uc ec k z,
   inv (em_edit s' ec k (VZ z)) w ua ub.
 Proof. exact copy_then_edit_isolated. Qed.
 Print Assumptions C20_copy_then_edit_isolated.
+
+(* ---------------------------------------------------------------- direct-current electrodes *)
+(* [dinv s w ua ub]: potential electrode ua and current electrode ub exist; the metadata stored for each, and the dict each holds
+   in memory (if any), name ua under "Potential Electrodes" and ub under "Current Electrodes". *)
+
+(* Linking from either side establishes it, whatever the two electrodes held before. *)
+Theorem C20_dc_link_symmetric : forall s w ea eb,
+  get_ent w (uid ea) (ents s) = Some ea -> get_ent w (uid eb) (ents s) = Some eb -> uid ea <> uid eb ->
+  fam ea = FDC -> fam eb = FDC -> rol ea = RA -> rol eb = RB ->
+  dfresh s ea -> dfresh s eb -> dstored_ok s (uid ea) (uid eb) ea -> dstored_ok s (uid ea) (uid eb) eb ->
+  dinv (dc_link s ea eb) w (uid ea) (uid eb) /\ dinv (dc_link s eb ea) w (uid ea) (uid eb).
+Proof. exact dc_link_symmetric. Qed.
+Print Assumptions C20_dc_link_symmetric.
+
+(* It survives ALL sequences of re-links, free metadata edits, coordinate-reference-system assignments (a nested block next to
+   the flat link keys) and re-opens, from either side. *)
+Theorem C20_dc_link_persists : forall w ua ub l s,
+  dinv s w ua ub -> Forall dpop_ok l -> dinv (fold_left (dstep w ua ub) l s) w ua ub.
+Proof. exact dc_link_persists. Qed.
+Print Assumptions C20_dc_link_persists.
+
+(* After re-open each electrode resolves its partner again (the stored identifiers are converted back by the reader). *)
+Theorem C20_dc_reopen_resolves : forall s w ua ub e1,
+  dinv s w ua ub -> (get_ent w ua (ents (reopen s)) = Some e1 \/ get_ent w ub (ents (reopen s)) = Some e1) ->
+  exists p s1, partner (reopen s) e1 = (Some p, s1) /\ wsp p = w
+    /\ ((uid e1 = ua /\ uid p = ub) \/ (uid e1 = ub /\ uid p = ua)).
+Proof. exact dc_reopen_resolves. Qed.
+Print Assumptions C20_dc_reopen_resolves.
+
+Example C20_dc_nonvacuous :
+  exists s, run s0 h_dc = Ok s /\ dinv s false 1%N 2%N
+    /\ dinv (fold_left (dstep false 1%N 2%N) [DEdit true 24 3%Z; DCrs false 7%Z 8%Z; DReopen; DLink false] s) false 1%N 2%N.
+Proof. exact dinv_nonvacuous. Qed.
 
 (* non-vacuity: the history create rx, create tx, link establishes the invariant and well-formedness; on that state the
    hypotheses of the copy theorem hold and the copy succeeds *)
